@@ -1,4 +1,5 @@
 INIT GInit
 NEXT GNext
+CONSTANT DVariant = "faithful"
 CONSTANT Tier = "quick"
 CHECK_DEADLOCK FALSE
